@@ -144,6 +144,7 @@ def _replaced_by_complement_case(ctx, old_cls, label):
     ends = {k: Obj(g.SegmentEnd, k) for k in ("old.from_end", "old.to_end", "new.from_end", "new.to_end")}
     ovs = {k: Obj(None, k) for k in ("old.overlap", "new.overlap")}
     compl = z3.Bool("old_is_complement_of_new")
+    same_link = z3.Bool("old_is_the_same_link_as_new")
     ph = {"old.overlap": z3.Bool("old_overlap_unspecified"), "new.overlap": z3.Bool("new_overlap_unspecified")}
     eq = {("old.from_end", "new.to_end"): z3.Bool("oldfrom_eq_newto"), ("old.to_end", "new.from_end"): z3.Bool("oldto_eq_newfrom"),
           ("old.from_end", "new.from_end"): z3.Bool("oldfrom_eq_newfrom"), ("old.to_end", "new.to_end"): z3.Bool("oldto_eq_newto")}
@@ -163,17 +164,18 @@ def _replaced_by_complement_case(ctx, old_cls, label):
         (x,) = pos
         yield ("val", ph[name_of[x.oid]], [])
     models = {g.SegmentEnd.__eq__: m_eq, g.is_placeholder: m_ph,
-              ctx.fn("gfapy/line/edge/link/equivalence.py::Equivalence.is_complement"): const_model(lambda s_, o_: compl)}
+              ctx.fn("gfapy/line/edge/link/equivalence.py::Equivalence.is_complement"): const_model(lambda s_, o_: compl),
+              ctx.fn("gfapy/line/edge/link/equivalence.py::Equivalence.is_same"): const_model(lambda s_, o_: same_link)}
     islink = old_cls is g.line.edge.Link
     swapped = z3.And(eq[("old.from_end", "new.to_end")], eq[("old.to_end", "new.from_end")])
     same = z3.And(eq[("old.from_end", "new.from_end")], eq[("old.to_end", "new.to_end")])
-    want = z3.And(z3.BoolVal(islink), z3.Or(compl, z3.And(z3.Or(ph["old.overlap"], ph["new.overlap"]), swapped, z3.Not(same))))
+    want = z3.And(z3.BoolVal(islink), z3.If(compl, z3.Not(same_link), z3.And(z3.Or(ph["old.overlap"], ph["new.overlap"]), swapped, z3.Not(same))))
     def post(k, v, st):
         if k != "return":
             return z3.BoolVal(False)
         val = v if is_sym(v) else z3.BoolVal(bool(v))
         return val == want
-    sym = dict(old_is_complement_of_new=compl, **{str(b): b for b in list(ph.values()) + list(eq.values())})
+    sym = dict(old_is_complement_of_new=compl, old_is_the_same_link_as_new=same_link, **{str(b): b for b in list(ph.values()) + list(eq.values())})
     return Case(label, [old, new], post, heap=heap, models=models, symbols=sym,
                 replay=lambda w: {"target": "bounded.replay_helpers:path_link_direction_cases"}, confirm=battery_confirm)
 
@@ -182,7 +184,7 @@ def _replaced_by_complement_case(ctx, old_cls, label):
 class IsReplacedByComplement(Contract):
     fn = "gfapy/line/common/update_references.py::UpdateReferences.__is_replaced_by_complement"
     props = ("C12", "C03")
-    doc = ("a placeholder link is replaced by its COMPLEMENT form iff is_complement says so, or - when at least one of the two overlaps is "
+    doc = ("a placeholder link is replaced by its COMPLEMENT form iff is_complement says so and is_same does not (a hairpin with a symmetric overlap is both: it keeps its direction), or - when at least one of the two overlaps is "
            "unspecified, so that the overlaps cannot tell - the ends are exchanged (old.from = new.to and old.to = new.from) and not "
            "identical (a link whose two forms coincide keeps its direction); a line that is not a link is never 'complemented'")
 
